@@ -150,6 +150,12 @@ func checkC01(c *Ctx) {
 			for j := 0; j < nf; j++ {
 				fn := targets[rng.Intn(len(targets))]
 				kind := faultKinds[rng.Intn(len(faultKinds))]
+				if kind == "flip" && textResource(sc, fn) {
+					// stored-byte corruption of document TEXT is a search of the input
+					// space around the corpus; it is C07's business at the parse stage.
+					// Here text resources meet transport-level faults only.
+					kind = "trunc"
+				}
 				f := faultOn(rng, sc, fn, kind)
 				if rng.Intn(4) == 0 && len(ref.Res.Fetches) > 0 {
 					// by fetch sequence number (transient in time rather than per URL)
@@ -371,6 +377,9 @@ func (c *Ctx) stageHTTP(refs map[refKey]*Ref, keys []refKey) {
 			if i > 0 {
 				fn := files[rng.Intn(len(files))]
 				kind := []string{"err", "trunc", "mime", "charset", "empty", "flip", "transient"}[rng.Intn(7)]
+				if kind == "flip" && textResource(ref.Sc, fn) {
+					kind = "trunc"
+				}
 				f := faultOn(rng, ref.Sc, fn, kind)
 				f.Op = "http"
 				faults = append(faults, f)
@@ -439,7 +448,11 @@ func (c *Ctx) stageConcurrentFaults(refs map[refKey]*Ref, keys []refKey) {
 			total += ref.Res.Steps
 			if rng.Intn(2) == 0 {
 				names := append([]string{ref.Sc.Main}, ref.Sc.FileNames()...)
-				sp.Faults = append(sp.Faults, faultOn(rng, ref.Sc, names[rng.Intn(len(names))], faultKinds[rng.Intn(len(faultKinds))]))
+				fn, kind := names[rng.Intn(len(names))], faultKinds[rng.Intn(len(faultKinds))]
+				if kind == "flip" && textResource(ref.Sc, fn) {
+					kind = "err"
+				}
+				sp.Faults = append(sp.Faults, faultOn(rng, ref.Sc, fn, kind))
 			}
 		}
 		sp.Budget = total*50 + 500000000
